@@ -488,10 +488,55 @@ class Raises:
                             meth = self.m.lookup_method(a[1], '__contains__')
                             if meth is not None:
                                 self._call_h2(fi, e, meth, frames, out)
+                elif isinstance(e.ops[i], (ast.Lt, ast.LtE, ast.Gt,
+                                           ast.GtE)):
+                    left = e.left if i == 0 else e.comparators[i - 1]
+                    self._unordered(fi, e, left, c, frames, out)
             return
+        if isinstance(e, ast.BinOp) and isinstance(
+                e.op, (ast.Add, ast.Sub, ast.Mult, ast.FloorDiv, ast.Mod)) \
+                and not isinstance(e.left, ast.Constant):
+            self._unordered(fi, e, e.left, e.right, frames, out,
+                            what='arithmetic')
         for c in ast.iter_child_nodes(e):
             if isinstance(c, ast.expr):
                 self._expr(fi, c, frames, out)
+
+    def _unordered(self, fi, node, a, b, frames, out, what='ordering'):
+        """`a < b` / `a + b` where one operand may be an instance of an h2
+        class that defines no such operation and the other a number:
+        TypeError (typically an object stored where its value was meant)."""
+        ta, tb = self.r.type_of(a, fi), self.r.type_of(b, fi)
+        dunder = ('__lt__', '__gt__', '__le__', '__ge__') \
+            if what == 'ordering' else (
+                '__add__', '__radd__', '__sub__', '__rsub__', '__mul__',
+                '__rmul__', '__floordiv__', '__mod__', '__rmod__')
+
+        def plain(ts):
+            for x in ts:
+                if x[0] == 'inst':
+                    c = self.m.classes.get(x[1])
+                    if c is None:
+                        continue
+                    ext = [bn for bn in c.bases
+                           if self.m.class_by_name(bn) is None and
+                           bn != 'object']
+                    if ext:
+                        continue        # may inherit the operation
+                    if not any(self.m.lookup_method(x[1], d) is not None
+                               for d in dunder):
+                        return x[1]
+            return None
+
+        def numeric(ts):
+            return any(x[0] == 'prim' and x[1] in ('int', 'float', 'bool')
+                       for x in ts)
+        for p, q in ((ta, tb), (tb, ta)):
+            cls = plain(p)
+            if cls is not None and numeric(q):
+                self._op(fi, node, '%s with a %s object' % (
+                    what, cls.split('.')[-1]), 'TypeError', frames, out)
+                return
 
     def _iter_protocol(self, fi, it_expr, site, frames, out):
         """Iterating an h2 object calls its __iter__/__next__; the loop
